@@ -28,6 +28,7 @@ fn base_case(prop: &str, seed: u64) -> (Case, Rng) {
         note: String::new(),
         http_arm: false,
         defer_writes: false,
+        disk_fault_rate: 0.0,
     };
     draw_sim_part(&mut rng, &mut case);
     // the HTTP arm: a share of the runs of the properties that are stated for both transports
@@ -42,6 +43,15 @@ fn base_case(prop: &str, seed: u64) -> (Case, Rng) {
         _ => 0.0,
     };
     case.defer_writes = defer.chance(share);
+    // the disk-fault arm of the log properties (separate from the fault-free runs, so that its relaxations
+    // hide nothing there)
+    let mut faults = Rng::substream(seed, "disk-faults");
+    if matches!(prop, "C01" | "C02") && faults.chance(0.15) {
+        case.disk_fault_rate = *faults.pick(&[0.02, 0.05, 0.15]);
+        case.knobs.dedup = false;
+        case.knobs.no_wait = false;
+        case.http_arm = false;
+    }
     (case, rng)
 }
 
@@ -252,6 +262,13 @@ pub fn make_case(prop: &str, seed: u64) -> Case {
             case.gen.invalid_chance = if prop == "C05" { 0.05 } else { 0.25 };
             case.gen.topic_expiry = vec![Expiry::Never, Expiry::ServerDefault, Expiry::Micros(3_600_000_000)];
             case.gen.topic_max_size = vec![MaxSize::Unlimited, MaxSize::ServerDefault, MaxSize::Bytes(case.knobs.segment_size * 3)];
+            // "server default" only differs from "never" / "unlimited" when the server's defaults are finite
+            if rng.chance(0.4) {
+                case.knobs.default_expiry_micros = 7_200_000_000;
+            }
+            if rng.chance(0.4) {
+                case.knobs.default_max_topic_size = case.knobs.segment_size * 5;
+            }
             case.gen.batch_sizes = vec![1, 2, 5];
             let mut mix = Mix {
                 catalogue: 40,
